@@ -457,7 +457,7 @@ impl DatabaseHandle {
     }
 
     pub(crate) async fn clear_written_events(&mut self, app: &mut dyn OutstationApplication) {
-        #[cfg(dnp3_verif)]
+        #[cfg(all(test, dnp3_verif))]
         crate::util::verif_trace::log("db clear_written".to_string());
         app.begin_confirm();
         let state = self.inner.lock().unwrap().inner.clear_written_events(app);
@@ -466,7 +466,7 @@ impl DatabaseHandle {
 
     pub(crate) fn get_events_info(&self) -> EventsInfo {
         let guard = self.inner.lock().unwrap();
-        #[cfg(dnp3_verif)]
+        #[cfg(all(test, dnp3_verif))]
         {
             let c = guard.inner.unwritten_classes();
             crate::util::verif_trace::log("db evinfo".to_string());
@@ -496,7 +496,7 @@ impl DatabaseHandle {
                 Some(x) => iin2 |= guard.inner.select_by_header(x),
             }
         }
-        #[cfg(dnp3_verif)]
+        #[cfg(all(test, dnp3_verif))]
         {
             crate::util::verif_trace::log("db select".to_string());
             crate::util::verif_trace::log(format!("> iin2 {}", iin2.value));
@@ -504,9 +504,9 @@ impl DatabaseHandle {
         iin2
     }
 
-    #[cfg_attr(dnp3_verif, allow(unreachable_code))]
+    #[cfg_attr(all(test, dnp3_verif), allow(unreachable_code))]
     pub(crate) fn write_response_headers(&mut self, cursor: &mut WriteCursor) -> ResponseInfo {
-        #[cfg(dnp3_verif)]
+        #[cfg(all(test, dnp3_verif))]
         {
             let start = cursor.position();
             let info = self
@@ -531,14 +531,14 @@ impl DatabaseHandle {
             .write_response_headers(cursor)
     }
 
-    #[cfg_attr(dnp3_verif, allow(unreachable_code))]
+    #[cfg_attr(all(test, dnp3_verif), allow(unreachable_code))]
     pub(crate) fn write_unsolicited(
         &mut self,
         classes: EventClasses,
         cursor: &mut WriteCursor,
     ) -> usize {
         let mut guard = self.inner.lock().unwrap();
-        #[cfg(dnp3_verif)]
+        #[cfg(all(test, dnp3_verif))]
         {
             crate::util::verif_trace::log(format!(
                 "db write_unsol {}{}{}",
@@ -568,7 +568,7 @@ impl DatabaseHandle {
     }
 
     pub(crate) fn reset(&mut self) {
-        #[cfg(dnp3_verif)]
+        #[cfg(all(test, dnp3_verif))]
         crate::util::verif_trace::log("db reset".to_string());
         self.inner.lock().unwrap().inner.reset()
     }
